@@ -145,6 +145,9 @@ class VTuner:
         self.order = list(p["order"]) if p.get("order") else None
         self.num_suggest_calls = 0
         self.stop = False  # monitors may end the run (e.g. after a violation that derails the protocol)
+        # other experiments living in the same process (own scheduler, own trials), stepped in between this one's events:
+        # one experiment's bookkeeping is none of the other's business
+        self.bystanders = []
 
     # ------------------------------------------------------------------ helpers
     def _notify(self, name, *args):
@@ -341,5 +344,7 @@ class VTuner:
     def run(self):
         max_events = self.p.get("max_events", 200)
         while self.n_events < max_events and self.step():
-            pass
+            for b in self.bystanders:
+                if b.n_events < b.p.get("max_events", 200) and b.raised is None:
+                    b.step()
         return self
